@@ -955,6 +955,60 @@ func restoringOps(fn *ssa.Function) []ssa.Instruction {
 	return out
 }
 
+// absentPartReturn: the return is the early exit of a guard clause whose condition
+// is decided by the receiver alone (the guard-clause form of
+// `if c.part != nil { c.part.restore(...) }`, possibly through a predicate method
+// of the receiver): nothing decoded from the stream takes part in it.
+func absentPartReturn(fn *ssa.Function, r ssa.Instruction) bool {
+	b := r.Block()
+	for len(b.Preds) == 1 {
+		pr := b.Preds[0]
+		if iff, ok := pr.Instrs[len(pr.Instrs)-1].(*ssa.If); ok {
+			if len(fn.Params) == 0 {
+				return false
+			}
+			// operands only: a load of the receiver's field is decided by the receiver
+			sl := map[ssa.Value]bool{}
+			var walk func(v ssa.Value)
+			walk = func(v ssa.Value) {
+				if v == nil || sl[v] {
+					return
+				}
+				sl[v] = true
+				if in, isI := v.(ssa.Instruction); isI {
+					for _, op := range in.Operands(nil) {
+						if *op != nil {
+							walk(*op)
+						}
+					}
+				}
+			}
+			walk(iff.Cond)
+			for v := range sl {
+				switch x := v.(type) {
+				case *ssa.Parameter:
+					if x != fn.Params[0] {
+						return false
+					}
+				case *ssa.Alloc, *ssa.Extract, *ssa.Phi, *ssa.MakeInterface, *ssa.TypeAssert, *ssa.Lookup, *ssa.Global, *ssa.FreeVar:
+					return false
+				case *ssa.Call:
+					// a predicate of the receiver only
+					if x.Common().IsInvoke() || len(x.Common().Args) != 1 || memRoot(x.Common().Args[0]) != ssa.Value(fn.Params[0]) {
+						return false
+					}
+				}
+			}
+			return true
+		}
+		if len(pr.Succs) != 1 {
+			return false
+		}
+		b = pr
+	}
+	return false
+}
+
 // loadRestoresRule: an operation of LoadCheckpoint that restores part of the
 // receiver on one successful path must be performed on every successful path: a
 // load that returns nil without having restored a field leaves that field at
@@ -984,6 +1038,9 @@ func loadRestoresRule(c *Ctx, rule string, pred func(string) bool, floor int) {
 			for _, r := range rets {
 				if InstrDominates(op, r) {
 					some = true
+				} else if absentPartReturn(fn, r) {
+					// `if c.part == nil { return nil }`: the part this restore fills does
+					// not exist in this object; nothing read from the stream decides it
 				} else {
 					all = false
 					missed = r
